@@ -2587,7 +2587,12 @@ namespace Clipper2Lib {
 
       while (e)
       {
-        if (e->vertex_top == vertex_max)
+        //nb: horizontals in open paths aren't trimmed (see UpdateEdgeIntoAEL),
+        //so an open horz. that doubles back (a 180 deg. horizontal spike) can
+        //pass its maxima pair before reaching the last of its consecutive
+        //horizontals. It's only finished once it's on that last horizontal.
+        if (e->vertex_top == vertex_max &&
+          (!horzIsOpen || horz.vertex_top == vertex_max))
         {
           if (IsHotEdge(horz) && IsJoined(*e))
             Split(*e, e->top);
